@@ -560,7 +560,8 @@ def replay_known(rep, pid, legs, harness, known):
 
 def finish(rep, level='proof', checker_cmd='', extra_cov=None):
     pid = rep.pid
-    os.makedirs(os.path.join(VERIF, 'evidence'), exist_ok=True)
+    evdir = os.environ.get('VERIF_EVIDENCE_DIR', os.path.join(VERIF, 'evidence'))  # override: seed testing only
+    os.makedirs(evdir, exist_ok=True)
     os.makedirs(os.path.join(VERIF, 'replays'), exist_ok=True)
     failed = [o for o in rep.obligations if not o[1]]
     # a failed proof obligation / correspondence with no concrete failing input
@@ -620,7 +621,7 @@ def finish(rep, level='proof', checker_cmd='', extra_cov=None):
         'wall_s': round(time.time() - rep.t0, 1),
         'violations': len(prop_v) + (1 if (not prop_v and (failed or other_v)) else 0),
     }
-    json.dump(ev, open(os.path.join(VERIF, 'evidence', pid + '.json'), 'w'), indent=1)
+    json.dump(ev, open(os.path.join(evdir, pid + '.json'), 'w'), indent=1)
     log('%s %s: obligations %d/%d, evaluations %d, distinct nontrivial %d, violations %d, %.0fs'
         % (pid, rep.tier, cov['discharged'], cov['obligations'], rep.evaluations, len(rep.distinct),
            ev['violations'], ev['wall_s']))
